@@ -113,7 +113,6 @@ pub(crate) fn restore_disclosure(
     current_path: String,
     disclosure_paths: &mut Vec<DisclosurePath>,
 ) -> Result<bool, Error> {
-    let mut array_changes = Vec::new();
     let mut is_restored = false;
 
     match claims {
@@ -142,32 +141,31 @@ pub(crate) fn restore_disclosure(
         }
         Value::Array(array) => {
             for (idx, item) in array.iter_mut().enumerate() {
-                if item.is_object() {
-                    let value = item.as_object().unwrap().get("...");
-                    if value.is_some() && item.as_object().unwrap().len() != 1 {
+                let path = format_path(&current_path, &idx.to_string());
+                if let Some(object) = item.as_object() {
+                    let value = object.get("...");
+                    if value.is_some() && object.len() != 1 {
                         return Err(Error::SDJWTRejected(
                             ("... key must be only key in object").to_string(),
                         ));
                     }
 
-                    if let Some(v) = value {
-                        if v == disclosure.digest() {
-                            if !disclosure.key().is_none() {
-                                return Err(Error::SDJWTRejected(format!(
-                                    "disclosure key must be empty in {} for array elements",
-                                    disclosure.disclosure(),
-                                )));
-                            }
-                            let path = format_path(&current_path, &idx.to_string());
-                            disclosure_paths.push(DisclosurePath::new(&path, disclosure));
-                            array_changes.push(disclosure.value().clone());
-                            is_restored = true;
+                    if value.map_or(false, |v| v == disclosure.digest()) {
+                        if !disclosure.key().is_none() {
+                            return Err(Error::SDJWTRejected(format!(
+                                "disclosure key must be empty in {} for array elements",
+                                disclosure.disclosure(),
+                            )));
                         }
+                        disclosure_paths.push(DisclosurePath::new(&path, disclosure));
+                        *item = disclosure.value().clone();
+                        is_restored = true;
+                        continue;
                     }
                 }
-            }
-            for elem in array_changes {
-                array.push(elem);
+                if restore_disclosure(item, disclosure, path, disclosure_paths)? {
+                    is_restored = true;
+                }
             }
         }
         _ => {}
